@@ -27,14 +27,21 @@
     (33 states), `callid_never_panics`, `uint_never_panics`, `clen_never_panics`, `cseq_never_panics`,
     `contacts_never_panics`, `pais_never_panics`, `fline_never_panics`, `hdrline_never_panics`,
     `headers_never_panics`.
-  NOT yet proved: panic-freedom of the stand-alone parsers the message parser does not call (ParseTokenParam,
-  URI parameter / header lists, ParseURI, comparison, signature, lookup functions): covered by the hostile-input
-  correspondence (the model predicts `PANIC` exactly where Go panics) and the safety oracle.
+  * **stand-alone entry points** (`Sipsp.Proofs.SafeRest`, re-exported below): ParseTokenParam, ParseAllURIParams /
+    Hdrs, URIParamsEq / HdrsEq, URICmp(Short), URIParseCmp, GetCallIDSig, GetViaBrSig, ContainsIP6, GetMsgSig.
+  * **GetMsgSig after ANY history** (`Sipsp.Proofs.SigCompose`): `sig_never_panics` (after a completed ParseSIPMsg —
+    the former cleanliness hypothesis on the header list is now an invariant: kept by Init with cleared arrays, by
+    every ParseSIPMsg call whatever its verdict, and by Reset), `sig_never_panics_history` (any history of Init / parse
+    calls — complete, suspended, failed — / Reset, then a legitimate call that ends with OK), `sig_never_panics_init`,
+    `sig_never_panics_schedule` (every chunk schedule from Init), `sig_never_panics_reset(_schedule)`,
+    `reset_after_history_is_init` (Reset after any history is literally an Init object).
+  Assumed (as everywhere): arrays handed to Init are cleared (Go's Init does not clear them either).
 -/
 import Sipsp.Proofs.ProgressNA
 import Sipsp.Proofs.SafeMsg
 import Sipsp.Tie
 import Sipsp.Proofs.SafeRest
+import Sipsp.Proofs.SigCompose
 
 namespace Sipsp.C04
 open Sipsp
@@ -287,5 +294,32 @@ theorem msgsig_never_panics : type_of% @getMsgSig_safe := @getMsgSig_safe
 
 /-- … in particular after a completed ParseSIPMsg (hypothesis `hun`: the header list was unused before the parse) -/
 theorem msgsig_after_parse_never_panics : type_of% @getMsgSig_after_parse := @getMsgSig_after_parse
+
+/-! ### GetMsgSig after ANY history of Init / parse / Reset (no cleanliness hypothesis) (proved in `Sipsp.Proofs.SigCompose`) -/
+
+/-- `getMsgSig_after_parse` without its hypothesis on the unused header slots: it follows from the invariant -/
+theorem sig_never_panics : type_of% @Sipsp.sc_getMsgSig_safe := @Sipsp.sc_getMsgSig_safe
+
+/-- **after ANY history** that left the object legitimate for the next call (`msgOK2`, `MsgSafe`: a resumed call on
+    an extension of the same buffer; for the first call after Init / Reset they hold, see below), a successful
+    ParseSIPMsg is followed by a panic-free GetMsgSig -/
+theorem sig_never_panics_history : type_of% @Sipsp.sc_getMsgSig_safe_history := @Sipsp.sc_getMsgSig_safe_history
+
+/-- the first call after Init: the two legitimacy hypotheses hold -/
+theorem sig_never_panics_init : type_of% @Sipsp.sc_getMsgSig_safe_init := @Sipsp.sc_getMsgSig_safe_init
+
+/-- **every chunk schedule from Init that ends with OK**: the result is what one call on one of the buffers (the one
+    of the last call made) returns, `msg.Buf` lies inside that buffer, and GetMsgSig on it — or on any extension of
+    it — does not panic -/
+theorem sig_never_panics_schedule : type_of% @Sipsp.sc_getMsgSig_safe_schedule := @Sipsp.sc_getMsgSig_safe_schedule
+
+/-- **any history, then Reset, then one successful call**: GetMsgSig does not panic (no legitimacy hypothesis left) -/
+theorem sig_never_panics_reset : type_of% @Sipsp.sc_getMsgSig_safe_reset := @Sipsp.sc_getMsgSig_safe_reset
+
+/-- **any history, then Reset, then any chunk schedule that ends with OK**: as `sc_getMsgSig_safe_schedule` -/
+theorem sig_never_panics_reset_schedule : type_of% @Sipsp.sc_getMsgSig_safe_reset_schedule := @Sipsp.sc_getMsgSig_safe_reset_schedule
+
+/-- **Reset after any history gives an Init object** (so every theorem stated "from Init" applies after Reset) … -/
+theorem reset_after_history_is_init : type_of% @Sipsp.sc_reset_after_history := @Sipsp.sc_reset_after_history
 
 end Sipsp.C04
